@@ -65,7 +65,7 @@ CLAIMED = {
          "Trusted: the reference interpreter; the failing part is read from Debug/Display text of the crate's error types (fields private) and reported unobservable if that text changes.",
          "DESIGN.md §2 C14"),
  "C15": (PBT + ": order laws and operator agreement on exhaustive extreme triples and generated values, result vectors (built through 12 kinds of source iterator, incl. imprecise size hints) vs independently computed totals (i64 exactly; f64 exactly for exactly summable values and within the rounding bound otherwise; i32, u64), individuals vs their results, generator/scorer provenance with a recording scorer",
-         "Exploration with an exhaustive component: all 343 triples over the 7 extreme i64 values; hundreds of thousands (quick) to millions (thorough) of generated cases; result counts at powers of two and block sizes; result types beyond i64/f64 (i32, u64, u8, i128 where the crate provides them) and partially ordered results inside individuals.",
+         "Exploration with an exhaustive component: all 343 triples over the 7 extreme i64 values; hundreds of thousands (quick) to millions (thorough) of generated cases; result counts at powers of two and block sizes; further result types (f64 scores and errors with exactly summable and general values, i32, u64) and partially ordered results inside individuals.",
          "Trusted: i128 reference sums; TestResults == is not required to agree with cmp.",
          "DESIGN.md §2 C15"),
  "C16": (PBT + ": call histories over a registry of operators, each call run twice from cloned instrumented generators (results, words consumed, next word, sequence of generator entry points used), repeats within a history, a third run on another thread; Push programs run twice and with permuted input declaration order",
